@@ -319,6 +319,74 @@ EMPTY_RAISING = {"numpy.nanmax", "numpy.nanmin", "numpy.max", "numpy.min", "nump
 SCALAR_MAKERS = ("nanmax", "nanmin", "max", "min", "mean", "nanmean", "sum", "nansum", "len", "median", "nanmedian")
 
 
+def diff_reductions(tree, resolve):
+    """[(call node, guarded)] for min/max-like reductions whose operand contains np.diff(X) (directly or through a local bound to it):
+    np.diff of a one-element dimension list is empty and the reduction raises ValueError.  Guarded = enclosed in (or preceded by an exit
+    under) a test of len(...) / .size that mentions X or the diff."""
+    out = []
+    for f in [n for n in ast.walk(tree) if isinstance(n, (ast.FunctionDef, ast.Lambda))] or [tree]:
+        diffs = {}
+        for a in ast.walk(f):
+            if isinstance(a, ast.Assign) and len(a.targets) == 1 and isinstance(a.targets[0], ast.Name):
+                for k in ast.walk(a.value):
+                    if isinstance(k, ast.Call) and resolve(k) == "numpy.diff" and k.args:
+                        diffs.setdefault(a.targets[0].id, set()).update(x.id for x in ast.walk(k.args[0]) if isinstance(x, ast.Name))
+        pm = parent_map(f)
+        for k in ast.walk(f):
+            if not (isinstance(k, ast.Call) and resolve(k) in EMPTY_RAISING and k.args):
+                continue
+            names = set()
+            for x in ast.walk(k.args[0]):
+                if isinstance(x, ast.Call) and resolve(x) == "numpy.diff" and x.args:
+                    names |= {y.id for y in ast.walk(x.args[0]) if isinstance(y, ast.Name)} | {"<diff>"}
+                if isinstance(x, ast.Name) and x.id in diffs:
+                    names |= diffs[x.id] | {x.id}
+            if not names:
+                continue
+
+            def tests(test):
+                for c_ in ast.walk(test):
+                    if isinstance(c_, ast.Call) and dotted(c_.func) == "len" and c_.args and any(isinstance(y, ast.Name) and y.id in names for y in ast.walk(c_.args[0])):
+                        return True
+                    if isinstance(c_, ast.Attribute) and c_.attr in ("size", "shape") and isinstance(c_.value, ast.Name) and c_.value.id in names:
+                        return True
+                return False
+            guarded = False
+            cur = k
+            while cur is not None and not guarded:
+                par = pm.get(cur)
+                if isinstance(par, (ast.If, ast.IfExp)) and tests(par.test):
+                    guarded = True
+                if isinstance(par, ast.Try):
+                    guarded = guarded or any(h.type is None or "ValueError" in norm(h.type) or norm(h.type) == "Exception" for h in par.handlers)
+                for fld in ("body", "orelse"):
+                    b = getattr(par, fld, None)
+                    if isinstance(b, list) and cur in b:
+                        for st in b[:b.index(cur)]:
+                            if isinstance(st, ast.If) and tests(st.test) and st.body and isinstance(st.body[-1], (ast.Return, ast.Continue, ast.Raise, ast.Expr)):
+                                guarded = True
+                cur = par
+            out.append((k, guarded))
+    return out
+
+
+def check_diff_reductions(ctx):
+    prog = ctx.prog
+    ctl = ast.parse("def f(lt):\n    a = np.min(np.diff(lt))\n    d = np.diff(lt)\n    b = max(d)\n    if len(lt) > 1:\n        c = np.min(np.diff(lt))\n    return a\n")
+    r = diff_reductions(ctl, lambda k: {"np.min": "numpy.min", "np.diff": "numpy.diff", "max": "max"}.get(dotted(k.func)))
+    ctx.control("C19.5", [g for _, g in r] == [False, False, True], "a min/max over np.diff(list) is reported unless a length test on the list guards it")
+    n = 0
+    for name in sorted(prog.modules):
+        m = prog.modules[name]
+        hits = diff_reductions(m.tree, lambda k, m=m: call_name(m, k) or dotted(k.func))
+        bad = [k for k, g in hits if not g]
+        n += 1
+        ctx.ob("C19.5", name, not bad, "no min/max-like reduction over np.diff(...) of a list that may have a single element (%d site(s))" % len(hits),
+               loc=prog.loc(m, bad[0]) if bad else None,
+               msg="%s raises ValueError when the differenced list has one element (one lead time, one date, one threshold - all legitimate): "
+                   "np.diff is then empty and no length test guards the call" % (norm(bad[0])[:80] if bad else ""))
+
+
 def check_empty_reductions(ctx):
     """np.nanmax/np.max/... raise ValueError on an empty array.  When their operand was subset by an np.where selection I, the call
     must be protected by an emptiness test on I (or on something subset by I) that exits or encloses the call; a test on the
@@ -528,35 +596,58 @@ def descriptor_conversions(prog):
     """Every numeric conversion applied to an element of the row-descriptor table (Data.get_axis_descriptions), in the functions that
     receive the table (directly or through helpers returning it - fixed point) and in local helpers / methods that are handed one
     element (one level).  -> (users, [(qualname, module, node, what, conversion, precision, guarded)])"""
-    sources = {"get_axis_descriptions"}
+    # name of a function that hands the table on -> None (the value itself) or the set of positions of its returned tuple that do
+    sources = {"get_axis_descriptions": None}
+
+    def _callee(v):
+        if isinstance(v, ast.Call) and isinstance(v.func, (ast.Attribute, ast.Name)):
+            nm = v.func.attr if isinstance(v.func, ast.Attribute) else v.func.id
+            return nm if nm in sources else None
+        return None
 
     def tainted_names(f):
         names = set()
-        for n in ast.walk(f):
-            if isinstance(n, ast.Assign) and isinstance(n.value, ast.Call) and isinstance(n.value.func, (ast.Attribute, ast.Name)) \
-                    and (n.value.func.attr if isinstance(n.value.func, ast.Attribute) else n.value.func.id) in sources:
-                for t in n.targets:
-                    if isinstance(t, ast.Name):
-                        names.add(t.id)
-                    elif isinstance(t, ast.Tuple):
-                        names.update(e.id for e in t.elts if isinstance(e, ast.Name))
+        for _ in range(2):
+            for n in ast.walk(f):
+                if not isinstance(n, ast.Assign):
+                    continue
+                src = _callee(n.value)
+                if src is not None:
+                    pos = sources[src]
+                    for t in n.targets:
+                        if isinstance(t, ast.Name) and pos is None:
+                            names.add(t.id)
+                        elif isinstance(t, (ast.Tuple, ast.List)):
+                            for i, e in enumerate(t.elts):
+                                if isinstance(e, ast.Name) and (pos is None or i in pos):
+                                    names.add(e.id)
+                elif isinstance(n.value, ast.Name) and n.value.id in names:
+                    names.update(t.id for t in n.targets if isinstance(t, ast.Name))
         return names
     changed = True
     while changed:
         changed = False
         for qual, m, c, f in prog.all_functions():
-            if f.name in sources:
+            if f.name == "get_axis_descriptions":
                 continue
             names = tainted_names(f)
             for n in ast.walk(f):
                 if isinstance(n, ast.Return) and n.value is not None:
                     v = n.value
-                    direct = isinstance(v, ast.Call) and isinstance(v.func, (ast.Attribute, ast.Name)) and \
-                        (v.func.attr if isinstance(v.func, ast.Attribute) else v.func.id) in sources
-                    if direct or (isinstance(v, ast.Name) and v.id in names):
-                        sources.add(f.name)
+                    new_pos = "no"
+                    if (_callee(v) is not None and sources[_callee(v)] is None) or (isinstance(v, ast.Name) and v.id in names):
+                        new_pos = None
+                    elif isinstance(v, (ast.Tuple, ast.List)):
+                        ps = {i for i, e in enumerate(v.elts) if (isinstance(e, ast.Name) and e.id in names) or (_callee(e) is not None and sources[_callee(e)] is None)}
+                        if ps:
+                            new_pos = ps
+                    if new_pos == "no":
+                        continue
+                    old = sources.get(f.name, "no")
+                    merged = None if (new_pos is None or old is None) else (set(new_pos) | (set(old) if old != "no" else set()))
+                    if old == "no" or merged != old:
+                        sources[f.name] = merged
                         changed = True
-                        break
 
     def conversions(root, names, elem_names, skip_defs=True):
         sites = []
@@ -659,6 +750,7 @@ def run(ctx):
     check_none_deref(ctx)
     check_guard_use(ctx)
     check_empty_reductions(ctx)
+    check_diff_reductions(ctx)
     check_writers(ctx)
     ctx.rule("C19.7", "numeric conversions of row descriptors (strings for time-like axes) are guarded by a string test")
     check_descriptor_formats(ctx)
